@@ -115,6 +115,10 @@ def programs(tier="quick"):
     # --- arrays
     out.append(("array|signal-array-dynamic-index", entity(["arr = Signal[Array[Unsigned[4], 4]](name='arr')", "@std.sequential(std.Clock(self.clk))", "def p():", "    arr[self.us[1:0].unsigned] <<= self.a", "    self.o <<= arr[self.bv[1:0].unsigned]",
                                                             "    self.q <<= arr[2][0]"])))
+    # index expressions of plain BitVector type (no numeric interpretation): rejected, or converted legally
+    out.append(("array|bitvector-index", entity(["arr = Signal[Array[Unsigned[4], 4]](name='arr')", "@std.sequential(std.Clock(self.clk))", "def p():", "    arr[self.bv[1:0]] <<= self.a", "    self.o <<= arr[self.bv[3:2]]"])))
+    out.append(("index|bitvector-index-of-vector", entity(["@std.concurrent", "def p():", "    self.q <<= self.us[self.bv[1:0]]"])))
+    out.append(("index|slice-of-unsigned-as-index", entity(["@std.concurrent", "def p():", "    self.q <<= self.bv[self.us[1:0]]"])))
     out.append(("array|variable-array", entity(["@std.sequential(std.Clock(self.clk))", "def p():", "    arr = Variable[Array[BitVector[4], 2]]([self.bv, Null])", "    arr[1] @= self.us.bitvector", "    self.ob <<= arr[self.b]" if False else "    self.ob <<= arr[0] | arr[1]"])))
     # --- if-expressions / merges on every type
     for cname in ("concurrent", "clocked", "unclocked"):
